@@ -195,7 +195,7 @@ def parse_template(text, unit):
             # re-join `::` that belong to paths inside a selector (selectors start with a keyword)
             sel = []
             for p in parts:
-                if re.match(r"^(mod|impl|trait|fn|struct|enum|type|const|macro)\s", p) or not sel:
+                if re.match(r"^(mod|impl|trait|fn|struct|enum|type|const|macro|macro_rules)\s", p) or not sel:
                     sel.append(p)
                 else:
                     sel[-1] += "::" + p
